@@ -484,7 +484,7 @@ class Image:
             n.update(nlink=nlink, size=fsize, blocks_start=bstart, frag_idx=fidx, frag_off=foff, sparse=sparse, block_sizes=sizes)
         elif base == 3:
             nlink, tsz = s.unpack("<II")
-            if tsz > 65535:
+            if tsz > (1 << 24):
                 raise Corrupt("symlink target of %d bytes" % tsz)
             n.update(nlink=nlink, target=s.read(tsz))
             if ext:
